@@ -25,7 +25,7 @@ pub fn spec() -> PropSpec {
     PropSpec {
         id: "C19",
         level: "exploration",
-        rule: "4 (thorough: 8) secret keys ([29k;32]) x every contract of <=3 predicates drawn from a pool of 6 small predicates (<=2 nodes, <=2 edges, 2 program addresses; plus 2 contracts repeating a predicate) x 2 salts. Per (key, contract, salt): sign, then present every permutation of the predicates (and sign every permutation, present the original); content tamperings = every salt bit (quick: every 4th), every byte of every predicate's encoding xor {0x01,0x80} (quick: 0x01) re-decoded where that yields a different encodable predicate, every program-address bit of the first node (thorough), remove / duplicate each predicate, add each pool predicate; signature tamperings = every single-bit flip of the 64 signature bytes (quick: every 4th bit), recovery byte 0..=255 (quick: on the first salt only), and 12 malformed strings (all-zero with ids 0..3 and 255, all-0xFF, r=0, s=0, r=n, s=n, r=n-1 with s=n, id 4). Oracle: genuine signature on the same multiset of predicates and salt => recover = the signer's key (derived independently with secp256k1), verify and verify_message Ok; changed content => recover is Err or another key and verify_message Err; flipped signature bit / other recovery id => Err or another key; malformed (id>3, r or s zero or >= group order) => Err; every subject call under catch_unwind; encode::public_key / encode::signature collision-free over every key and signature met, every key's negation (differs only in the parity byte) and every valid key that shares all but the last serialized byte with a signer's key, *_as_bytes = big-endian bytes of the words; RecoverSecp256k1 through sync::step_op on [address words, encode::signature words] pushes encode::public_key(recovered key); check_signed_contract accepts exactly when verify does. non-trivial = the presented contract has a predicate or the signature/content was tampered; distinct by probe",
+        rule: "4 (thorough: 8) secret keys ([29k;32]) x every contract of <=3 predicates drawn from a pool of 6 small predicates (<=2 nodes, <=2 edges, 2 program addresses; plus 2 contracts repeating a predicate) x 2 salts. Per (key, contract, salt): sign, then present every permutation of the predicates (and sign every permutation, present the original); content tamperings = every salt bit (quick: every 4th), every byte of every predicate's encoding xor {0x01,0x80} (quick: 0x01) re-decoded where that yields a different encodable predicate, every program-address bit of the first node (thorough), remove / duplicate each predicate, add each pool predicate; signature tamperings = every single-bit flip of the 64 signature bytes (quick: every 4th bit), recovery byte 0..=255 (quick: on the first salt only), and 12 malformed strings (all-zero with ids 0..3 and 255, all-0xFF, r=0, s=0, r=n, s=n, r=n-1 with s=n, id 4) and the malleated high-S twin (r, n-s, id^1) of the genuine signature. Oracle: genuine signature on the same multiset of predicates and salt => recover = the signer's key (derived independently with secp256k1), verify and verify_message Ok; changed content => recover is Err or another key and verify_message Err; flipped signature bit / other recovery id => Err or another key; malformed (id>3, r or s zero or >= group order) => Err; every subject call under catch_unwind; encode::public_key / encode::signature collision-free over every key and signature met, every key's negation (differs only in the parity byte) and every valid key that shares all but the last serialized byte with a signer's key, *_as_bytes = big-endian bytes of the words; RecoverSecp256k1 through sync::step_op on [address words, encode::signature words] pushes encode::public_key(recovered key); check_signed_contract accepts exactly when verify does. non-trivial = the presented contract has a predicate or the signature/content was tampered; distinct by probe",
         assumptions: &["keys come from a fixed pool of 4 (thorough: 8) and contracts from a pool of small predicates: structural dimensions (permutations, fields, bits) exhausted, the 2^256 key and digest spaces are not"],
         run,
         replay,
@@ -504,6 +504,18 @@ fn raw_specials(g: &TSig) -> Vec<(String, u8)> {
     x[32..].copy_from_slice(&ORDER);
     v.push((h(&x), g.1));
     v.push((h(&g.0), 4));
+    // the malleated twin (r, n - s, id ^ 1): well-formed, high-S, recovers the SAME key natively
+    // (signing only ever emits low-S, so this form has to be constructed)
+    let mut twin = g.0;
+    let mut borrow = 0i16;
+    for i in (0..32).rev() {
+        let d = ORDER[i] as i16 - g.0[32 + i] as i16 - borrow;
+        borrow = (d < 0) as i16;
+        twin[32 + i] = (d + 256 * borrow) as u8;
+    }
+    if g.1 < 4 {
+        v.push((h(&twin), g.1 ^ 1));
+    }
     v
 }
 
